@@ -588,6 +588,28 @@ func runContainerStream(c *ctx) error {
 							emitRead(f, "eof", enc(frame(append(wrong, secs[2:]...))), "bytes", "mislabelled-block")
 						}
 					}
+					// a LATER block stored under the CID of an EARLIER one (its own data, or garbage): the second use of a
+					// CID is checked like the first
+					for i := 1; i < len(secs); i++ {
+						_, ci, err := cid.CidFromBytes(secs[i])
+						if err != nil {
+							continue
+						}
+						for j := i + 1; j < len(secs); j++ {
+							_, cj, err := cid.CidFromBytes(secs[j])
+							if err != nil {
+								continue
+							}
+							dj := secs[j][len(cj.Bytes()):]
+							re := append([][]byte(nil), secs...)
+							re[j] = append(append([]byte(nil), ci.Bytes()...), dj...)
+							emitRead(f, "eof", enc(frame(re)), []string{"bytes", "stream1"}[(i+j)%2], "mislabelled-as-earlier")
+						}
+						garbage := append(append([]byte(nil), ci.Bytes()...), []byte("not a token at all")...)
+						emitRead(f, "eof", enc(frame(append(append([][]byte(nil), secs...), garbage))), "bytes", "garbage-under-repeated-cid")
+						trunc := append(append([]byte(nil), ci.Bytes()...), secs[i][len(ci.Bytes()):len(secs[i])-1]...)
+						emitRead(f, "eof", enc(frame(append(append([][]byte(nil), secs[:i+1]...), append([][]byte{trunc}, secs[i+1:]...)...))), "bytes", "garbage-under-repeated-cid")
+					}
 					// zero-length section, huge declared length
 					emitRead(f, "eof", enc(append(append([]byte(nil), raw...), 0x00)), "bytes", "zero-section")
 					emitRead(f, "eof", enc(append(append([]byte(nil), raw...), 0xff, 0xff, 0xff, 0xff, 0x7f)), "bytes", "huge-section")
